@@ -144,7 +144,7 @@ def setup_engine(world, reg, qual) -> tuple[Engine, State, dict]:
         if eng.cellvars:
             raise Untranslatable("closure with its own cell variables nested in a closure")
     elif eng.cellvars or True:
-        st.envref = st.new_ref(owned=True)
+        st.envref = st.new_ref(owned=True, kind="env")
     for n, v in args.items():
         if n != "__env__":
             st.env[n] = v
